@@ -86,7 +86,7 @@ func (f *Feature) UnmarshalJSON(data []byte) error {
 	}
 
 	doc := &featureDoc{}
-	err := unmarshalJSON(data, &doc)
+	err := unmarshalJSON(data, doc)
 	if err != nil {
 		return err
 	}
